@@ -174,27 +174,25 @@ class SequenceContainer(common.Parseable, common.XmlObject):
                 em.LongDescription(self.long_description)
             )
 
-        if (
-                (self.restriction_criteria and not self.base_container_name) or
-                (not self.restriction_criteria and self.base_container_name)
-        ):
-            raise ValueError("The restriction_criteria and base_container_name must be specified together or "
-                             "not at all.")
-
-        if len(self.restriction_criteria) == 1:
-            restrictions = self.restriction_criteria[0].to_xml(elmaker=elmaker)
-        else:
-            restrictions = em.ComparisonList(
-                *(rc.to_xml(elmaker=elmaker) for rc in self.restriction_criteria)
-            )
+        if self.restriction_criteria and not self.base_container_name:
+            raise ValueError("The restriction_criteria can only be specified together with a base_container_name.")
 
         if self.base_container_name:
-            sc.append(
-                em.BaseContainer(
-                    em.RestrictionCriteria(restrictions),
-                    containerRef=self.base_container_name
-                ),
-            )
+            base_container = em.BaseContainer(containerRef=self.base_container_name)
+            # The RestrictionCriteria element is optional (a container may inherit unconditionally)
+            if len(self.restriction_criteria) == 1:
+                base_container.append(
+                    em.RestrictionCriteria(self.restriction_criteria[0].to_xml(elmaker=elmaker))
+                )
+            elif self.restriction_criteria:
+                base_container.append(
+                    em.RestrictionCriteria(
+                        em.ComparisonList(
+                            *(rc.to_xml(elmaker=elmaker) for rc in self.restriction_criteria)
+                        )
+                    )
+                )
+            sc.append(base_container)
 
         entry_list = em.EntryList()
         for entry in self.entry_list:
